@@ -17,7 +17,9 @@
 #include "vpeer.h"
 #include "vs.h"
 #include <poll.h>
+#include <pthread.h>
 #include <stdlib.h>
+#include <unistd.h>
 #include <string.h>
 
 enum { H_NONE, H_ID, H_ROUTE, H_HOPS };
@@ -414,6 +416,177 @@ run(void *arg)
 }
 
 // ---- driver --------------------------------------------------------------------
+// ---- schedules: poll descriptors after concurrent traffic ------------------------------------------------
+// (a) X sends two messages while a thread on Y does non-blocking receives; every schedule within the
+//     budget; afterwards the library is quiescent and the oracle of the sequence part is applied until Y
+//     is drained: descriptor readable => receive does not say EAGAIN, receive succeeds => descriptor was
+//     readable.  (b) REP with two requests outstanding on one pipe: the second request is received while
+//     the send completion of the first reply runs; afterwards the send descriptor must say "writable" iff
+//     the non-blocking send succeeds.
+static nng_socket pr_s[2];
+static const variant *pr_v;
+static void *
+pr_sender(void *a)
+{
+	(void) a;
+	for (int i = 0; i < 2; i++) {
+		nng_msg *m;
+		uint8_t  b[2] = { 'X', (uint8_t) i };
+		if (nng_msg_alloc(&m, 0) != 0 || nng_msg_append(m, b, 2) != 0)
+			vs_fail("harness:pr", "msg alloc");
+		if (nng_sendmsg(pr_s[0], m, NNG_FLAG_NONBLOCK) != 0)
+			nng_msg_free(m);
+	}
+	return NULL;
+}
+static void *
+pr_receiver(void *a)
+{
+	(void) a;
+	for (int i = 0; i < 2; i++) {
+		nng_msg *m;
+		if (nng_recvmsg(pr_s[1], &m, NNG_FLAG_NONBLOCK) == 0)
+			nng_msg_free(m);
+	}
+	return NULL;
+}
+static void
+pr_drain_check(nng_socket s, int fd, const char *pn, const char *what)
+{
+	char sig[96];
+	for (int i = 0; i < 6; i++) {
+		vs_settle();
+		int      P = readable(fd);
+		nng_msg *m = NULL;
+		int      R = nng_recvmsg(s, &m, NNG_FLAG_NONBLOCK);
+		if (R == 0)
+			nng_msg_free(m);
+		if (P && R == NNG_EAGAIN)
+			VIOL(SIG(sig, pn, "recv", "readable-but-eagain"),
+			    "[%s] after the race the recv descriptor polls readable but the "
+			    "non-blocking recv returns NNG_EAGAIN",
+			    what);
+		if (!P && R == 0)
+			VIOL(SIG(sig, pn, "recv", "success-without-readable"),
+			    "[%s] after the race recv delivered a message although the recv "
+			    "descriptor did not poll readable",
+			    what);
+		if (R != 0)
+			break;
+	}
+}
+static void
+run_pollrace(void *arg)
+{
+	const variant *v = arg;
+	pr_v             = v;
+	int fd           = -1;
+	vh_init(0);
+	for (int i = 0; i < 2; i++) {
+		VH_OK(v->open[i](&pr_s[i]));
+		set_buf(pr_s[i], 2);
+	}
+	if (v->sub)
+		VH_OK(nng_sub0_socket_subscribe(pr_s[1], "", 0));
+	// the descriptor exists before the race or is created after it
+	int early = vs_choose(VK_ENV, 2);
+	if (early)
+		VH_OK(nng_socket_get_recv_poll_fd(pr_s[1], &fd));
+	VH_OK(nng_listen(pr_s[0], "inproc://c15pr", NULL, 0));
+	VH_OK(nng_dial(pr_s[1], "inproc://c15pr", NULL, 0));
+	vs_settle();
+	pthread_t ts, tr;
+	vs_window(1);
+	pthread_create(&ts, NULL, pr_sender, NULL);
+	pthread_create(&tr, NULL, pr_receiver, NULL);
+	pthread_join(ts, NULL);
+	pthread_join(tr, NULL);
+	vs_window(0);
+	vs_settle();
+	if (!early)
+		VH_OK(nng_socket_get_recv_poll_fd(pr_s[1], &fd));
+	vs_nontrivial();
+	pr_drain_check(pr_s[1], fd, v->name[1], "sendX sendX || recvY recvY");
+	vs_outcome("%s early=%d", v->scen, early);
+	nng_socket_close(pr_s[1]);
+	nng_socket_close(pr_s[0]);
+	vh_fini();
+}
+
+static nng_socket rr_rep;
+static void *
+rr_recv2(void *a)
+{
+	(void) a;
+	nng_msg *m;
+	for (int i = 0; i < 3; i++)
+		if (nng_recvmsg(rr_rep, &m, NNG_FLAG_NONBLOCK) == 0) {
+			nng_msg_free(m);
+			return (void *) 1;
+		}
+	return NULL;
+}
+static void
+run_reprace(void *arg)
+{
+	(void) arg;
+	char sig[96];
+	vh_init(0);
+	VH_OK(nng_rep0_open(&rr_rep));
+	int sfd = -1, rfd = -1;
+	VH_OK(nng_socket_get_send_poll_fd(rr_rep, &sfd));
+	VH_OK(nng_socket_get_recv_poll_fd(rr_rep, &rfd));
+	int fd = vp_connect_raw(rr_rep, SP_REQ, NULL);
+	if (fd < 0)
+		vs_fail("harness:setup", "raw requester");
+	uint8_t id1[4] = { 0x80, 0, 0, 1 }, id2[4] = { 0x80, 0, 0, 2 };
+	if (vp_send(fd, id1, 4, "q1", 2) != 0 || vp_send(fd, id2, 4, "q2", 2) != 0)
+		vs_fail("harness:peer", "raw write");
+	vs_settle();
+	nng_msg *m;
+	if (nng_recvmsg(rr_rep, &m, NNG_FLAG_NONBLOCK) != 0)
+		vs_fail("harness:rr", "first request not received");
+	nng_msg_free(m);
+	VH_OK(nng_msg_alloc(&m, 0));
+	VH_OK(nng_msg_append(m, "r1", 2));
+	// reply 1 is sent and request 2 is received while that send completes
+	pthread_t t;
+	void     *got2 = NULL;
+	vs_window(1);
+	if (nng_sendmsg(rr_rep, m, NNG_FLAG_NONBLOCK) != 0)
+		vs_fail("harness:rr", "first reply refused");
+	pthread_create(&t, NULL, rr_recv2, NULL);
+	pthread_join(t, &got2);
+	vs_window(0);
+	vs_settle();
+	if (!got2) {
+		if (nng_recvmsg(rr_rep, &m, NNG_FLAG_NONBLOCK) != 0)
+			vs_fail("C15:rep:recv:missed", "second request never became receivable");
+		nng_msg_free(m);
+		vs_settle();
+	}
+	vs_nontrivial();
+	// request 2 is received, reply 1 is out: a reply can be sent now
+	int P = readable(sfd);
+	VH_OK(nng_msg_alloc(&m, 0));
+	VH_OK(nng_msg_append(m, "r2", 2));
+	int R = nng_sendmsg(rr_rep, m, NNG_FLAG_NONBLOCK);
+	if (R != 0)
+		nng_msg_free(m);
+	if (R == 0 && !P)
+		VIOL(SIG(sig, "rep", "send", "success-without-writable"),
+		    "[two requests on one pipe; reply 1 sent; request 2 received while that send "
+		    "completed] the non-blocking send of reply 2 succeeded although the send "
+		    "descriptor did not poll readable (a poll-driven server would never send it)");
+	if (R == NNG_EAGAIN && P)
+		VIOL(SIG(sig, "rep", "send", "readable-but-eagain"),
+		    "[two requests on one pipe] send descriptor readable but send says NNG_EAGAIN");
+	vs_outcome("reprace got2=%d P=%d R=%d", got2 != NULL, P, R);
+	close(fd);
+	nng_socket_close(rr_rep);
+	vh_fini();
+}
+
 static int
 depth_for(int nal, long cap, int maxd)
 {
@@ -486,6 +659,38 @@ main(int argc, char **argv)
 			c.budget[j] = 0;
 		c.budget[VB_ENV] = -1;
 		c.total          = 0;
+		vx_explore(&c, NULL);
+	}
+	// schedule scenarios: variants in which X can send to Y without a header or a prior request
+	for (int i = 0; i < NV; i++) {
+		if (V[i].hdr[0] != H_NONE || !V[i].snd[0] || !V[i].rcv[1])
+			continue;
+		if (!T && i >= 7 && strcmp(V[i].scen, "xpub-xsub") != 0)
+			continue; // quick: the cooked ones and raw SUB
+		char nm[64];
+		snprintf(nm, sizeof(nm), "pollrace-%s", V[i].scen);
+		vx_cfg c;
+		memset(&c, 0, sizeof(c));
+		c.prop     = "C15";
+		c.scenario = strdup(nm);
+		c.run      = run_pollrace;
+		c.arg      = (void *) &V[i];
+		c.budget[VB_PREEMPT] = 1;
+		c.budget[VB_SWITCH]  = 1;
+		c.budget[VB_ENV]     = -1;
+		c.total              = T ? 2 : 1;
+		vx_explore(&c, NULL);
+	}
+	{
+		vx_cfg c;
+		memset(&c, 0, sizeof(c));
+		c.prop     = "C15";
+		c.scenario = "pollrace-rep-two-requests";
+		c.run      = run_reprace;
+		c.budget[VB_PREEMPT] = T ? 2 : 1;
+		c.budget[VB_SWITCH]  = 2;
+		c.budget[VB_ENV]     = -1;
+		c.total              = 2;
 		vx_explore(&c, NULL);
 	}
 	vx_note("alphabet",
